@@ -3,7 +3,8 @@ CONSTANTS
   Keys = {"a", "b"}
   MaxRetries = 10
   MaxShed = 3
-  MaxCalls = 1
+  MaxCalls = 2
+  MaxManual = 2
   Modes = {"new", "newoff", "old", "oldoff"}
   Others = {FALSE, TRUE}
 INVARIANTS TypeOK Bounded EchoExact CliJustified OnlyWhileFulfilling FinalOutcome EndsForAReason WireOK Channel NoOrphanOnNew PassThrough
